@@ -188,12 +188,15 @@ CHECKS["C15"] = {
 C16F = [G + "c16_multivariant.go", G + "c06_reload.go"] + MUX
 CHECKS["C16"] = {
     "technique": "symbolic track lists through the real Start and generateMultivariantPlaylist; multivariant checks inside the bounded muxer runs; non-linear lemma on bandwidth()",
-    "bounds": {"quick": {"layout": "1..3 tracks of {H264, MPEG-4 audio, Opus}, name/language/default set or not, fMP4 and Low-Latency", "runs": "as C01 (K=4)", "bandwidth": "1..3 listed segments (+2 gaps), sizes in [1,2^30], durations in [0,2^36] ns"},
+    "bounds": {"quick": {"layout": "1..3 tracks of {video, MPEG-4 audio, Opus} with the video codec H264 / H265 / VP9 / AV1 (one run each), name/language/default set or not, fMP4 and Low-Latency", "runs": "as C01 (K=4)", "bandwidth": "1..3 listed segments (+2 gaps), sizes in [1,2^30], durations in [0,2^36] ns"},
                "thorough": {"layout": "same", "runs": "as C01 thorough", "bandwidth": "1..4 segments"}},
     "assumptions": MUX_STUBS + ["RESOLUTION / FRAME-RATE compared against the stubbed SPS fields (1920x1080, 30 fps); natively against the real parser on the same SPS"],
-    "outside": ["RFC 6381 strings of H265 / AV1 / VP9", "peak/mean equality for multi-stream muxers (the statement only claims it for single-stream ones)"],
+    "outside": ["exact RFC 6381 strings and RESOLUTION values of H265 / AV1 / VP9 (prefix and presence only; the strings are lemma.codecs' subject in C09)", "peak/mean equality for multi-stream muxers (the statement only claims it for single-stream ones)"],
     "runs": [
         {"name": "run.mv.layout", "files": C16F, "fn": "VerifH_C16_layout", "workers": 16, "reach": ["accepted", "rejected", "end"]},
+        {"name": "run.mv.layout.h265", "files": C16F, "fn": "VerifH_C16_layout", "workers": 16, "params": {"VCODEC": 1}, "reach": ["accepted", "rejected", "end"]},
+        {"name": "run.mv.layout.vp9", "files": C16F, "fn": "VerifH_C16_layout", "workers": 16, "params": {"VCODEC": 2}, "reach": ["accepted", "rejected", "end"]},
+        {"name": "run.mv.layout.av1", "files": C16F, "fn": "VerifH_C16_layout", "workers": 16, "params": {"VCODEC": 3}, "reach": ["accepted", "rejected", "end"]},
         {"name": "lemma.bandwidth", "files": C16F, "fn": "VerifH_C16_bandwidth", "workers": 8, "params_quick": {"N": 3}, "params_thorough": {"N": 4}, "qtimeout": 60000, "reach": ["computed"]},
     ] + mux_runs(),
 }
@@ -373,7 +376,11 @@ LLDISK = _mx("run.mux.ll.disk", 3, 0, 4, 5, _STD, VKINDS=2, DISK=1, CLOSE_AT_END
 H265 = _mx("run.mux.fmp4.h265", 2, 0, 4, 5, _STD + ["init-after-change"], VCODEC=1, VKINDS=5)
 VP9 = _mx("run.mux.fmp4.vp9", 2, 0, 4, 5, _STD + ["init-after-change"], VCODEC=2, VKINDS=3)
 AV1 = _mx("run.mux.fmp4.av1", 2, 0, 4, 5, _STD + ["init-after-change"], VCODEC=3, VKINDS=3)
-for pid, extra in [("C01", [OPUS, LLVA, LLDISK, H265, VP9, AV1]), ("C02", [OPUS, H265, VP9, AV1]), ("C03", [OPUS, LLVA]), ("C04", [LLVA]), ("C05", [LLDISK]), ("C18", [LLDISK])]:
+LLAV1 = _mx("run.mux.ll.av1", 3, 0, 3, 4, _STD, VCODEC=3, VKINDS=3)
+LLVP9A = _mx("run.mux.ll.vp9+audio", 3, 1, 4, 5, _STD, VCODEC=2, VKINDS=2, FREEZEPART=1)
+# audio-only fMP4 with 1..2 access units per WriteMPEG4Audio call
+AONLY = dict(_mx("run.mux.fmp4.audio", 2, 2, 4, 5, _STD, MAXAUS=2), qtimeout=40000)
+for pid, extra in [("C01", [OPUS, LLVA, LLDISK, H265, VP9, AV1, LLAV1, LLVP9A, AONLY]), ("C02", [OPUS, H265, VP9, AV1, LLAV1, LLVP9A]), ("C03", [OPUS, LLVA]), ("C04", [LLVA]), ("C05", [LLDISK]), ("C18", [LLDISK])]:
     CHECKS[pid]["runs"] = CHECKS[pid]["runs"] + extra
 CHECKS["C19"]["runs"] = CHECKS["C19"]["runs"] + [
     {"name": "run.ll.parts.audio", "files": C19F, "fn": "VerifH_C19_run", "workers": 16, "params": {"AUDIO": 1}, "params_quick": {"K": 10}, "params_thorough": {"K": 14},
